@@ -191,7 +191,7 @@ func genYamlTestFile(r *rand.Rand, ruleId string) (string, bool) {
 	for t := 0; t < nTests; t++ {
 		useID := style == 0 || style == 2 || (style == 3 && chance(r, 0.5))
 		useTitle := style == 1 || style == 2 || (style == 3 && !useID)
-		indent := pick(r, []string{"  - ", "    - ", "- ", "  -   ", "\t- "})
+		indent := pick(r, []string{"  - ", "    - ", "- ", "  -   ", "\t- ", "  - ", "    - ", "  # 100% ", "  - note: 50%% of %d -- ", "  # was %s: "})
 		val := pick(r, []string{"1", "7", "42", ruleId + "-3", "\"x\"", "abc", "0", "999999999999"})
 		sep := pick(r, []string{" ", "  ", "\t", " \t "})
 		first := true
@@ -354,10 +354,21 @@ func genC13(r *rand.Rand, tier string, env *Env) []Case {
 		if !nontrivial {
 			kind = "trivial"
 		}
+		if i%25 == 11 {
+			// a file of several buffer-fulls (5 KiB … 70 KiB, hundreds of tests; sometimes one single line)
+			for len(content) < 5000+r.Intn(65000) {
+				more, _ := genYamlTestFile(r, ruleId)
+				content += more
+			}
+			if chance(r, 0.15) {
+				content = strings.ReplaceAll(strings.ReplaceAll(content, "\n", " "), "\r", " ")
+			}
+			kind = "big-file"
+		}
 		c := Case{Kind: kind, Ops: []Op{{"renumber.processYaml", [][]byte{[]byte(ruleId), []byte(content)}}},
 			Oracles: []Op{{"c13.inproc", [][]byte{[]byte(ruleId), []byte(content)}}}}
-		if i < nCli {
-			c.Kind = "yaml+cli"
+		if i < nCli || kind == "big-file" {
+			c.Kind = kind + "+cli"
 			c.Oracles = append(c.Oracles, Op{"c13.cli", [][]byte{[]byte(ruleId), []byte(pick(r, []string{".yaml", ".yml"})), []byte(content)}})
 		}
 		cases = append(cases, c)
